@@ -109,6 +109,17 @@ def check(case: t.Any, ctx: Ctx) -> None:
         return
     if text != again or text != text2:
         ctx.fail('render-deterministic', nd.kind, f"{ident}; two renderings differ")
+    # rendering must leave the tree as it was: compare with the tree of the same failure obtained afresh
+    try:
+        pane.from_data(v, T)
+    except pane.ConvertError as e2:
+        from ..errtree import tree_eq
+        d_ = tree_eq(tree, e2.tree)
+        if d_ is not None:
+            ctx.fail('render-pure', nd.kind, f"{ident}; after str(err) the tree differs from the tree of the same failure taken afresh: {d_}")
+            return
+    except Exception:
+        pass
     try:
         clone = copy.deepcopy(tree)
     except Exception:
